@@ -11,6 +11,9 @@ HERE = os.path.dirname(os.path.dirname(os.path.abspath(__file__)))
 sys.path.insert(0, HERE)
 REPO = os.environ.get('VERIF_REPO', '/repo')
 sys.path.insert(0, REPO)
+if os.environ.get('C12_ENVDIR'):
+    # the environment location comes first: /repo itself has a conftest.py and a setup.py that would shadow the case's module
+    sys.path.insert(0, os.environ['C12_ENVDIR'])
 os.environ['JEDI_VERIF'] = '1'
 
 SENT = "import os as _o\n_f = open(_o.environ.get('C12_SENTINEL', '/dev/null'), 'a'); _f.write(%r + '\\n'); _f.close()\n"
